@@ -26,7 +26,7 @@ import (
 type spec struct {
 	server string
 	batch  string
-	kind   string // evict stopBusy stopInit reject sendErr timeoutRace twoStop
+	kind   string // evict stopBusy stopInit reject sendErr sendErrBusy timeoutRace twoStop port0
 }
 
 func (s spec) String() string {
@@ -129,6 +129,13 @@ func scenario(param string) vsched.Scenario {
 				// an established session with packets in flight in both directions when Stop is called
 				c.Send(target, []byte("p1"))
 				firstEcho = recvEcho("echo:p1")
+				c.Send(target, []byte("p2"))
+				c.Send(target, []byte("p3"))
+			case "sendErrBusy":
+				// an established session; from then on every relay send may fail, with Stop racing the uplink
+				c.Send(target, []byte("p1"))
+				firstEcho = recvEcho("echo:p1")
+				vudp.InjectSendErrors = true
 				c.Send(target, []byte("p2"))
 				c.Send(target, []byte("p3"))
 			case "stopInit", "reject", "sendErr":
@@ -236,7 +243,7 @@ func family(c *harness.Check) []string {
 	var out []string
 	for _, sv := range []string{"none", "ss2022", "socks5", "direct"} {
 		for _, b := range []string{"no", "sendmmsg"} {
-			for _, k := range []string{"evict", "timeoutRace", "stopBusy", "stopInit", "reject", "sendErr", "twoStop", "port0"} {
+			for _, k := range []string{"evict", "timeoutRace", "stopBusy", "stopInit", "reject", "sendErr", "sendErrBusy", "twoStop", "port0"} {
 				if !c.Thorough() && (sv == "socks5" || sv == "direct") && (k == "timeoutRace" || k == "twoStop" || k == "reject") {
 					continue
 				}
@@ -282,7 +289,7 @@ func main() {
 	// channel already closed, so those scenarios get the deeper bound in both tiers
 	var deep, rest []string
 	for _, p := range params {
-		if parse(p).kind == "sendErr" {
+		if k := parse(p).kind; k == "sendErr" || (k == "sendErrBusy" && c.Thorough()) {
 			deep = append(deep, p)
 		} else {
 			rest = append(rest, p)
